@@ -123,7 +123,11 @@ def gcirc(ra1, dec1, ra2, dec2, units=2):
         raise ValueError('units must be 0, 1 or 2!')
     sindis = np.sqrt(np.sin(deldec2)*np.sin(deldec2) +
                      np.cos(dcrad1)*np.cos(dcrad2)*np.sin(delra2)*np.sin(delra2))
-    dis = 2.0*np.arcsin(sindis)
+    #
+    # For (nearly) antipodal points rounding can push the sine of the half
+    # distance to 1 + 1 ulp, which arcsin answers with NaN.
+    #
+    dis = 2.0*np.arcsin(np.minimum(sindis, 1.0))
     if units == 0:
         return dis
     else:
